@@ -52,8 +52,13 @@ def make_case(seed, index, tier):
         for _ in range(rng.randint(1, 3)):
             rounds.append([rng.choice(OFFSETS), rng.choice(VOLUMES), rng.choice(LIMITS)])
         users.append({'name': 'u%d' % number, 'rounds': rounds})
-    return {'seed': seed, 'index': index, 'tier': tier,
-            'scenario': {'throughput': throughput, 'users': users}}
+    scenario = {'throughput': throughput, 'users': users}
+    if rng.random() < 0.3:
+        scenario['other_pipe'] = {
+            'throughput': rng.choice([0.5, 1, 3]),
+            'transfers': [[rng.choice(OFFSETS), rng.choice([1, 4, 16, 64]),
+                           rng.choice([None, 0.5, 2, 16])] for _ in range(rng.randint(1, 4))]}
+    return {'seed': seed, 'index': index, 'tier': tier, 'scenario': scenario}
 
 
 class PipeChecker:
@@ -133,6 +138,9 @@ def earlier_simulation(pipe):
             scope.do(pipe.transfer(3))
             scope.do(pipe.transfer(1, 0.5))
             scope.do(pipe.transfer(2))
+            # a transfer that is forcefully closed mid-flight when that simulation ends
+            scope.do(pipe.transfer(10 ** 6, 0.25), volatile=True)
+            await (usim.time + 20)
     usim.run(main())
 
 
@@ -170,7 +178,18 @@ def build_for(case):
                     checker.ends[name].append(time.now)
                     arena.log(name, 'transfer-end', volume, limit)
             return run
-        return [(spec['name'], user(spec)) for spec in scenario['users']], (), checker
+        background = []
+        if scenario.get('other_pipe'):
+            # a second, independent pipe is busy at the same time: pipes do not share anything
+            other = Pipe(throughput=scenario['other_pipe']['throughput'])
+
+            async def elsewhere():
+                async with usim.Scope() as scope:
+                    for offset, volume, limit in scenario['other_pipe']['transfers']:
+                        scope.do(other.transfer(volume, limit), after=offset or None)
+            background.append(elsewhere())
+            checker.stats['runs_next_to_another_pipe'] = 1
+        return [(spec['name'], user(spec)) for spec in scenario['users']], background, checker
     return build
 
 
